@@ -128,6 +128,12 @@ func (c *C12Case) facts(refs []outcome) c12Facts {
 		}
 		if call.V != nil {
 			f.scalar++
+			if len(call.V.CallFns) > 0 {
+				f.withFns++
+			}
+			if i > 0 && c.Calls[i-1].V != nil && c.Calls[i-1].V.Carrier == call.V.Carrier && len(c.Calls[i-1].V.CallFns) > 0 && len(call.V.CallFns) == 0 {
+				f.followUp = true
+			}
 			if i > 0 && c.Calls[i-1].V != nil && c.Calls[i-1].V.Carrier == call.V.Carrier && !refs[i-1].Nil && len(call.V.Rules) < len(c.Calls[i-1].V.Rules) {
 				f.followUp = true
 			}
@@ -212,6 +218,9 @@ func checkC12(c *C12Case) (string, c12Facts) {
 				retain(&held, o.Text, fmt.Sprintf("error text of call %d", i))
 				for _, r := range call.ruleTexts() {
 					tokensOf(&held, r)
+					// the quote-aware path of the splitter (its final token is the zero-copy one)
+					tokensOf(&held, "in=('a,b'/c),"+r)
+					tokensOf(&held, r+",re='^x,y$'|last of "+fmt.Sprint(i))
 				}
 				if !o.Nil {
 					retain(&held, valid.GetOnlyExplainErr(o.Text), fmt.Sprintf("GetOnlyExplainErr of call %d", i))
@@ -260,7 +269,9 @@ func checkC12(c *C12Case) (string, c12Facts) {
 func c12Variant(t *rapid.T, base *Call, regen func() (desc.V, bool)) *Call {
 	if base.V != nil {
 		cp := *base.V
-		switch rapid.IntRange(0, 3).Draw(t, "svariant") {
+		switch rapid.IntRange(0, 5).Draw(t, "svariant") {
+		case 4, 5: // the same rules without the per-call functions
+			cp.CallFns = nil
 		case 0: // fewer rules
 			if len(cp.Rules) > 1 {
 				cp.Rules = cp.Rules[:len(cp.Rules)-1]
